@@ -1,17 +1,30 @@
 #!/bin/bash
-# Applies each mutation of /verif/selftest/C18/*.diff in a scratch worktree of /repo and runs the C18 check on it.
-# usage: run_mutations.sh [name ...]     (expects exit 1 for every mutation)
+# Applies each mutation of /verif/selftest/C18/*.diff (not the fix-*.diff) in a scratch worktree of /repo and runs the
+# C18 check on it.  The mutations are written against the REPAIRED code: if /repo's HEAD does not contain the fixes
+# fix-F7.diff / fix-F15.diff yet, they are applied to the worktree first.
+# usage: run_mutations.sh [name ...]     (expects exit 1 for every mutation; "none" runs the repaired tree: expects 0)
 set -u
 WT=/tmp/wt-vsb
+D=/verif/selftest/C18
 cd /verif
 [ -d $WT ] || git -C /repo worktree add --detach $WT HEAD >/dev/null 2>&1
+reset_wt() {
+  git -C $WT checkout -q -- .
+  for f in fix-F7 fix-F15; do
+    git -C $WT apply --check $D/$f.diff 2>/dev/null && git -C $WT apply $D/$f.diff
+  done
+}
 names="$@"
-[ -z "$names" ] && names=$(cd /verif/selftest/C18 && ls *.diff | sed 's/\.diff$//')
+[ -z "$names" ] && names=$(cd $D && ls *.diff | grep -v '^fix-' | sed 's/\.diff$//')
 for n in $names; do
-  git -C $WT checkout -q -- . && git -C $WT apply /verif/selftest/C18/$n.diff || { echo "$n: patch does not apply"; continue; }
-  VERIF_REPO=$WT VERIF_TLC_WORKERS=${VERIF_TLC_WORKERS:-4} timeout 1500 python3 tools/check.py C18 --tier quick > /verif/.work/vsb-mut-$n.log 2>&1
+  reset_wt
+  if [ "$n" != none ]; then
+    git -C $WT apply $D/$n.diff || { echo "$n: patch does not apply"; continue; }
+  fi
+  VERIF_REPO=$WT VERIF_TLC_WORKERS=${VERIF_TLC_WORKERS:-4} timeout 2400 python3 tools/check.py C18 --tier quick > /verif/.work/vsb-mut-$n.log 2>&1
   rc=$?
   echo "== $n: exit $rc"
-  grep -E "^VIOLATION|^  what|^INCONCLUSIVE" /verif/.work/vsb-mut-$n.log | cut -c1-260 | head -8
-  git -C $WT checkout -q -- .
+  grep -E "^KNOWN-FINDING|^VIOLATION|^  what|^INCONCLUSIVE" /verif/.work/vsb-mut-$n.log | cut -c1-260 | head -8
 done
+git -C $WT checkout -q -- .
+rm -f /verif/replays/C18-*.json    # replays of mutated trees are not findings
